@@ -11,6 +11,13 @@ def sh(cmd, **kw):
     return subprocess.run(cmd, shell=True, text=True, stdout=subprocess.PIPE, stderr=subprocess.STDOUT, **kw)
 env = "PYTHONPATH=%s PYTHONHASHSEED=0" % a.wt
 meta = {"property": a.pid, "worktree": a.wt, "needs_to_manifest": a.needs, "ran": []}
+# 0. bring the scratch worktree up to /repo's current HEAD (fix: commits made since it was created)
+head = sh("git -C /repo rev-parse HEAD").stdout.strip().splitlines()[-1]
+cur = sh("git -C %s rev-parse HEAD" % a.wt).stdout.strip().splitlines()[-1]
+if head != cur:
+    r = sh("cd %s && git stash -q && git checkout -q --detach %s && git stash pop -q" % (a.wt, head))
+    meta["rebased_onto"] = head; meta["rebase_output"] = r.stdout[-200:]
+    sh("cd %s && git diff -- modelx > patch.diff" % a.wt)
 # 1. demo with the change
 r = sh("cd %s && %s /venv/bin/python demo.py" % (a.wt, env)); meta["demo_with_change_rc"] = r.returncode; meta["demo_with_change_tail"] = r.stdout[-400:]
 # 2. demo without
